@@ -33,7 +33,7 @@ try:
         rc = subprocess.run(["git", "-C", wt, "apply", os.path.join(d, "patch.diff")]).returncode
         r["patch_applies"] = rc == 0
         tests = " ".join("-p " + p for p in pkgs)
-        feat = "--features wat " if "--features wat" in m.get("demo_cmd", "") else ""
+        feat = "--features wat " if ("--features wat" in m.get("demo_cmd", "") or "wac-resolver" in pkgs) else ""
         rc, out = run("cargo test %s %s--no-fail-fast --offline -j 8" % (tests, feat))
         r["existing_tests_with_patch_rc"] = rc
         if rc != 0:
